@@ -756,6 +756,54 @@ func init() {
 			}
 		}
 
+		// ---- 2'. detours: the target role is reached over a path of exactly the maximal depth AND
+		//          over short paths (a depth-first walk with a shared visited set loses it, depending
+		//          on the iteration order of the role maps: several detours, several enforcers)
+		ndet := 30
+		if c.Thorough() {
+			ndet = 150
+		}
+		for i := 0; i < ndet; i++ {
+			cs := c01Build(r, next("rbac.detour"), byName["rbac"], nil, "ao", 0, 0)
+			long := 8 + i%3 // the long path has 8..10 links
+			var rules [][]string
+			for d := 0; d < 3; d++ { // three long detours from n0 to T, disjoint inner names
+				prev := "n0"
+				for k := 1; k < long; k++ {
+					nm := fmt.Sprintf("d%dk%d", d, k)
+					rules = append(rules, []string{prev, nm})
+					prev = nm
+				}
+				rules = append(rules, []string{prev, "T"})
+			}
+			rules = append(rules, []string{"n0", "s"}, []string{"s", "T"}, []string{"T", "top"})
+			r.Shuffle(len(rules), func(a, b int) { rules[a], rules[b] = rules[b], rules[a] })
+			cs.g[0].rules = rules
+			cs.p[0].rules = [][]string{{"T", "data1", "read"}, {"top", "data2", "read"}}
+			cs.reqs = c01AllReqs(r, nil, [][]c01V{c01StrVals("n0", "s", "d0k1", "d1k5", "T"), c01StrVals("data1", "data2"), c01StrVals("read")}, false)
+			c01RunMode(c, cs)
+		}
+		// names whose concatenations coincide, with and without a separator byte between them
+		for i, sep := range []string{"", ":", ";", "|", "/", " ", "-", "_", ".", "$"} { // no comma: F07
+			cs := c01Build(r, next("rbac.collide"), byName["rbac"], nil, "ao", 0, 0)
+			yz, xy := "y"+sep+"z", "x"+sep+"y"
+			cs.p[0].rules = [][]string{{"z", "data1", "read"}, {yz, "data1", "read"}}
+			if i%2 == 0 {
+				cs.g[0].rules = [][]string{{"x", yz}}
+				cs.reqs = []c01Req{{nil, c01StrVals("x", "data1", "read")}, {nil, c01StrVals(xy, "data1", "read")}, {nil, c01StrVals("x", "data1", "read")}}
+			} else {
+				cs.g[0].rules = [][]string{{xy, "z"}}
+				cs.reqs = []c01Req{{nil, c01StrVals(xy, "data1", "read")}, {nil, c01StrVals("x", "data1", "read")}, {nil, c01StrVals(xy, "data1", "read")}}
+			}
+			c01RunMode(c, cs)
+			// and across the domain argument: g(x, y, s+z... ) - (x, y+s, z) in domains
+			cd := c01Build(r, next("rbac-domains.collide"), byName["rbac-domains"], nil, "ao", 0, 0)
+			cd.p[0].rules = [][]string{{"y", "z", "data1", "read"}, {"y" + sep + "q", "z", "data1", "read"}, {"y", "q" + sep + "z", "data1", "read"}}
+			cd.g[0].rules = [][]string{{"x", "y", "q" + sep + "z"}}
+			cd.reqs = []c01Req{{nil, c01StrVals("x", "q"+sep+"z", "data1", "read")}, {nil, c01StrVals("x", "z", "data1", "read")}, {nil, c01StrVals("x", "q"+sep+"z", "data1", "read")}}
+			c01RunMode(c, cd)
+		}
+
 		// ---- 2. hierarchy boundary: chains of 9, 10, 11, 12 links, cycles
 		for _, fn := range []string{"rbac", "rbac-resource-roles", "rbac-domains", "priority"} {
 			f := byName[fn]
